@@ -780,7 +780,7 @@ func RunLoaded(l *Loaded, o Opts) *report.Report {
 	}
 	if sv.Errs > 0 {
 		rep.Status = "inconclusive"
-		rep.Reason = fmt.Sprintf("%d solver error lines", sv.Errs)
+		rep.Reason = fmt.Sprintf("%d solver errors, first: %s", sv.Errs, sv.FirstErr)
 	}
 	rep.SolSec = time.Since(t0).Seconds()
 	return rep
